@@ -362,6 +362,34 @@ class VecUnique(Contract):
         q = z3.Int("q!vu")
         same = lambda p, r: z3.Or(e(p) == e(r), z3.And(is_nan(e(p)), is_nan(e(r))), z3.And(is_nat(e(p)), is_nat(e(r))))
         first = lambda i: z3.Not(z3.Exists([q], z3.And(0 <= q, q < i, same(q, i))))
+        sel = getattr(result.seq, "guard", None)
+        if sel is not None and getattr(result.seq, "src_len", None) is not None:
+            # the result is a boolean-mask selection of the receiver (the object-dtype branch builds the mask of first
+            # occurrences): lemma "selected <=> first occurrence", both directions for an arbitrary position; the
+            # uniqueness meta-lemma on enumerations then identifies the selection with the specification's enumeration
+            cx.prove("lemma:selection is over the whole receiver", zint(result.seq.src_len) == n)
+            cx.lemma_forall("lemma:every selected position is a first occurrence",
+                            lambda i: z3.Implies(z3.And(in_range(i, n), zbool(sel(i))), first(i)), base="i")
+            # ghost enumerations of the specification: positions of the non-missing / the missing elements
+            K = Enum.of(ctx, n, lambda k: e(k) != NONE)
+            NA = Enum.of(ctx, n, lambda k: e(k) == NONE)
+            q2 = z3.Int("q2!vu")
+            first_f = lambda r: z3.Not(z3.Exists([q2], z3.And(0 <= q2, q2 < r, same(K.idx(q2), K.idx(r)))))
+            cx.lemma_forall("lemma:a missing first occurrence is the first missing position",
+                            lambda i: z3.Implies(z3.And(in_range(i, n), e(i) == NONE, first(i)), z3.And(NA.cnt >= 1, NA.idx(0) == i)), base="i")
+            cx.lemma_forall("lemma:a missing first occurrence is selected",
+                            lambda i: z3.Implies(z3.And(in_range(i, n), e(i) == NONE, first(i)), zbool(sel(i))), base="i")
+            cx.lemma_forall("lemma:a non-missing first occurrence is a first occurrence among the non-missing elements",
+                            lambda i: z3.Implies(z3.And(in_range(i, n), e(i) != NONE, first(i)),
+                                                 z3.And(in_range(K.rk(i), K.cnt), K.idx(K.rk(i)) == i, first_f(K.rk(i)))), base="i")
+            UE = Enum.of(ctx, K.cnt, first_f)
+            cx.lemma_forall("lemma:a non-missing first occurrence is enumerated among the first occurrences of the non-missing elements",
+                            lambda i: z3.Implies(z3.And(in_range(i, n), e(i) != NONE, first(i)),
+                                                 z3.And(in_range(UE.rk(K.rk(i)), UE.cnt), K.idx(UE.idx(UE.rk(K.rk(i)))) == i)), base="i")
+            cx.lemma_forall("lemma:a non-missing first occurrence is selected",
+                            lambda i: z3.Implies(z3.And(in_range(i, n), e(i) != NONE, first(i)), zbool(sel(i))), base="i")
+            cx.lemma_forall("lemma:every first occurrence is selected",
+                            lambda i: z3.Implies(z3.And(in_range(i, n), first(i)), zbool(sel(i))), base="i")
         en = Enum.of(ctx, n, first)
         j = ctx.fresh("j", INT)
         cx.prove("length = number of distinct values", zint(result.len) == en.cnt)
